@@ -166,8 +166,20 @@ func spin(n int) {
 	_ = x
 }
 
-// goroutine dump: is the writing loop of writer w parked in Cond.Wait while its batching loop is gone?
+// provenHung: a proof that Close can never return, not a timeout.
+//
+//	T0  the hook snapshot shows the done token posted and not taken: the batching loop HAS run up to its
+//	    last two statements (ReleaseGoroutines; Done) and the writing loop has not seen the token;
+//	T1  a stop-the-world goroutine dump shows no batchingLoop goroutine of this writer (so it has
+//	    finished: its Broadcast is in the past) and the writingLoop of this writer in state
+//	    [sync.Cond.Wait] (a goroutine that a Broadcast has readied is shown as runnable, not waiting).
+//
+// Only Push and ReleaseGoroutines signal the condition variable and only the batching loop calls
+// them, so nobody will ever wake the writing loop: runningWorkers.Wait() in Close blocks for ever.
 func provenHung(w *event.KafkaWriter) bool {
+	if _, _, _, tok := w.VerifSnapshot(); !tok {
+		return false
+	}
 	buf := make([]byte, 1<<20)
 	for {
 		n := runtime.Stack(buf, true)
@@ -613,7 +625,7 @@ func genRandom(r *rng.R, maxEv int) fw.Case {
 }
 
 func generate(tier string, r *rng.R) []fw.Case {
-	nRandom, nDrop, nQui, nFlood, nStorm, stormN, maxEv := 260, 30, 30, 3, 2, 1500, 600
+	nRandom, nDrop, nQui, nFlood, nStorm, stormN, maxEv := 700, 60, 60, 4, 3, 2000, 600
 	if tier == "thorough" {
 		nRandom, nDrop, nQui, nFlood, nStorm, stormN = 6000, 400, 400, 30, 20, 5000
 	}
